@@ -26,7 +26,8 @@ TEXTS = ["plain", "with \"quotes\"", "back\\slash", "triple \"\"\" quotes", " le
          # white space that is not GraphQL's (space, tab): no part of any indentation
          "\u00a0nbsp first\n\u00a0nbsp second", "\u3000wide\n\u3000  wide too", "\u00a0", "text\n\u2003", "\u2028", "\x1f unit sep\n\x1f again", "\x0b\x0c", "\u00a0" + "b" * 80,
          "\x85 nel\n\x85 nel", "ends with nbsp\u00a0\n\u00a0"]
-LOCS_EXEC = ["QUERY", "MUTATION", "SUBSCRIPTION", "FIELD", "FRAGMENT_DEFINITION", "FRAGMENT_SPREAD", "INLINE_FRAGMENT", "VARIABLE_DEFINITION"]
+LOCS_EXEC = ["QUERY", "MUTATION", "SUBSCRIPTION", "FIELD", "FRAGMENT_DEFINITION", "FRAGMENT_SPREAD", "INLINE_FRAGMENT", "VARIABLE_DEFINITION",
+             "FRAGMENT_VARIABLE_DEFINITION"]
 LOCS_TS = ["SCHEMA", "SCALAR", "OBJECT", "FIELD_DEFINITION", "ARGUMENT_DEFINITION", "INTERFACE", "UNION", "ENUM", "ENUM_VALUE", "INPUT_OBJECT",
            "INPUT_FIELD_DEFINITION"]
 
@@ -107,7 +108,11 @@ class Gen:
             return {"t": "f", "v": rnd.choice(["1.5", "-0.25", "2.0", "100000.0"])}
         if n == "ID" and rnd.random() < 0.4:
             # IDs that look like numbers, or almost do: an ID value is a string whatever it looks like
-            return {"t": "s", "v": [ord(c) for c in rnd.choice(["12", "1\n", "-3\n", "007", " 5", "0x1f", "1e3", "\u0663", "-0", "12\r", "9" * 25])]}
+            return {"t": "s", "v": [ord(c) for c in rnd.choice(["12", "12", "1\n", "-3\n", "007", "007", " 5", "0x1f", "1e3", "\u0663", "-0", "12\r", "9" * 25])]}
+        if n == "String" and rnd.random() < 0.45:
+            # strings that coincide with what other types spell differently (an ID "12" prints as 12, an enum value as a name)
+            enum_names = [v["name"] for t_ in self.types if t_["kind"] == "ENUM" for v in t_["values"]]
+            return {"t": "s", "v": [ord(c) for c in rnd.choice(["12", "12", "007", "-0"] + enum_names[:6])]}
         if n == "String" or n == "ID":
             return {"t": "s", "v": [ord(c) for c in (rnd.choice(TEXTS[:14]) if self.adv else "txt")]}
         if n == "Boolean":
@@ -459,6 +464,7 @@ def to_objects(S):
     from graphql.language import DirectiveLocation
     builtin = {"Int": GraphQLInt, "Float": GraphQLFloat, "String": GraphQLString, "Boolean": GraphQLBoolean, "ID": GraphQLID}
     made = {}
+    shared_defaults = {}
 
     def ref(t):
         if t[0] == "NN":
@@ -470,7 +476,13 @@ def to_objects(S):
     def arg(a, cls):
         kw = {"description": a["description"], "deprecation_reason": a["deprecation"]}
         if a["hasDefault"]:
-            kw["default"] = GraphQLDefaultInput(value=val_py(a["default"]))
+            # one GraphQLDefaultInput object serves every input value with an equal default (a module-level constant in user
+            # code): what is derived from it must not depend on which type asked first
+            pv = val_py(a["default"])
+            key = repr((type(pv).__name__, pv))
+            if key not in shared_defaults:
+                shared_defaults[key] = GraphQLDefaultInput(value=pv)
+            kw["default"] = shared_defaults[key]
         return cls(ref(a["type"]), **kw)
 
     def fields(t):
